@@ -90,7 +90,7 @@ func runC19(cfg *config, res *monitor.Result) {
 			sig := fmt.Sprintf("C19:%s:%s:%s", nc.kind, failure, position)
 			w := map[string]any{"nested_kind": nc.kind, "tag": tag, "position": position}
 			for k, v := range nc.desc {
-				if k != "target" {
+				if k != "target" && k != "other" {
 					w[k] = v
 				}
 			}
@@ -98,7 +98,10 @@ func runC19(cfg *config, res *monitor.Result) {
 		}
 		var B []byte
 		var berr error
-		if pi := monitor.Try(func() { B, berr = csproto.Marshal(nc.msg) }); pi != nil {
+		if st, ok := nc.msg.(*stubTo); ok {
+			// MarshalTo+Size only: csproto.Marshal does not support such a type, the payload is known
+			B = st.payload
+		} else if pi := monitor.Try(func() { B, berr = csproto.Marshal(nc.msg) }); pi != nil {
 			return // content-level defect of the nested type, not the bridge's
 		}
 		if nc.wantErr == nil && berr != nil {
@@ -197,6 +200,15 @@ func runC19(cfg *config, res *monitor.Result) {
 				continue
 			}
 			cur := dec.Offset()
+			{
+				// a destination of an unsupported type is refused whatever the payload is (also an empty one)
+				d4 := csproto.NewDecoder(buf)
+				_, _ = d4.Seek(int64(cur), 0)
+				var uerr error
+				if pi := monitor.Try(func() { uerr = d4.DecodeNested(&notAMessage{A: 1}) }); pi != nil || uerr == nil {
+					viol("decode-unsupported-target-accepted", fmt.Sprintf("DecodeNested into a value that is no message returned err=%v (panic=%v)", uerr, pi != nil))
+				}
+			}
 			switch m := nc.msg.(type) {
 			case *stubTo:
 				dst := &stubTo{}
@@ -220,6 +232,10 @@ func runC19(cfg *config, res *monitor.Result) {
 			default:
 				tt := nc.desc["target"].(target)
 				dst := tt.pkg.New(tt.md.FullName())
+				if other, ok := nc.desc["other"].(any); ok && other != nil {
+					// decode into a message that already holds other content: the result must not depend on it
+					dst = other
+				}
 				if err := dec.DecodeNested(dst); err != nil {
 					viol("decode-error", "DecodeNested failed on the bytes EncodeNested wrote: "+err.Error())
 					return
@@ -296,6 +312,12 @@ func runC19(cfg *config, res *monitor.Result) {
 			check(nestedCase{kind: kind, msg: gen, exact: !hasBigMap(c.Msg.ProtoReflect()),
 				desc: map[string]any{"package": t.pkg.GoPkg, "message": string(t.md.FullName()), "value": bridge.Text(c.Msg), "target": t}},
 				tags[(ti+ci)%len(tags)], positions[(ti+ci)%len(positions)])
+			// the same, decoding into a destination that already holds the next case's value
+			if other, err := build(t, cases[(ci+1)%len(cases)].Msg); err == nil {
+				check(nestedCase{kind: kind + "+reused-destination", msg: gen, exact: !hasBigMap(c.Msg.ProtoReflect()),
+					desc: map[string]any{"package": t.pkg.GoPkg, "message": string(t.md.FullName()), "value": bridge.Text(c.Msg), "target": t, "other": other}},
+					tags[(ti+ci)%len(tags)], positions[(ti+ci+1)%len(positions)])
+			}
 			if res.WantSample() && ci == 1 {
 				res.Sample(map[string]any{"nested_kind": kind, "package": t.pkg.GoPkg, "message": string(t.md.FullName()), "value": bridge.Text(c.Msg)})
 			}
